@@ -32,7 +32,10 @@ COMPONENTS = {
     "stub": ["multiprocessing.Manager (FakeManager: a proxy of a dead manager raises ConnectionRefusedError, the failure "
              "class of a real proxy whose server process is gone)", "process exit/restart", "executor pools",
              "directory listing order"],
-    "not_run": ["zarr storages", "a second real interpreter (see thorough tier / DESIGN 2.7)"],
+    "not_run": ["zarr storages"],
+    "real_children": "about 2% of the cases run the map in a real child interpreter (script with values of a class defined "
+                     "in its __main__, real multiprocessing.Manager for shared_memory_dict, optional real ThreadPoolExecutor) "
+                     "and reload in a second, fresh child interpreter",
 }
 ASSUMPTIONS = [
     "a fresh process shares the Python module state of the harness interpreter; only durable files and live manager "
@@ -79,10 +82,27 @@ def gen_case(tape, tier):
     if pre.startswith("crashed"):
         cfg["pre_crash_at"] = 2 + tape.choose(60, "pre-crash-at")
     cfg["pre"] = pre
+    # a small share of the cases is executed for real: map in one child interpreter (run as a script, values
+    # of a class defined in its __main__, real Manager processes), reload in a second, fresh child interpreter
+    if tape.coin(0.006 if tier == "quick" else 0.003, "real-children"):
+        cfg["real_children"] = True
+        cfg["real_pool"] = tape.pick(["none", "thread"], "real-pool")
+        cfg["pre"] = "none"
+        for fd in w["functions"]:
+            fd.pop("none_mod", None)
     return {"workload": w, "config": cfg, "ops": ops}
 
 
 def simplify(case):
+    if case["config"].get("real_children"):
+        for w in C.simplify_workload(case["workload"]):
+            c = copy.deepcopy(case)
+            c["workload"] = w
+            if isinstance(c["config"]["storage"], dict):
+                c["config"]["storage"] = next(iter(c["config"]["storage"].values()))
+            c["ops"] = []
+            yield c
+        return
     for w in C.simplify_workload(case["workload"]):
         c = copy.deepcopy(case)
         c["workload"] = w
@@ -167,8 +187,46 @@ def _expected_run_info(w, cfg, p, R_shapes):
     return exp
 
 
+def run_real(case):
+    """Process A (script: map) and process B (fresh interpreter: reload) as real child interpreters."""
+    import json
+    import subprocess
+    import sys
+
+    out = {"violations": [], "probes": {"real_children": 1}, "nontrivial": [], "evaluations": 1, "yields": 0,
+           "sim_time": 0.0, "exec_tape": [], "digest": None}
+    child = os.path.join(os.path.dirname(os.path.abspath(__file__)), "c04_real_child.py")
+    env = dict(os.environ, PYTHONHASHSEED="0", PYTHONDONTWRITEBYTECODE="1")
+    with C.Scratch() as root:
+        cpath, folder, epath = os.path.join(root, "case.json"), os.path.join(root, "run"), os.path.join(root, "expected.json")
+        with open(cpath, "w") as f:
+            json.dump(case, f)
+        a = subprocess.run([sys.executable, child, "run", cpath, folder, epath], env=env, capture_output=True, text=True, timeout=300)
+        if a.returncode != 0 or not os.path.exists(epath):
+            out["discarded"] = True  # the tree refused the workload (or the run itself failed): not a reload question
+            out["probes"]["real_run_refused"] = 1
+            return out
+        loader = os.path.join(os.path.dirname(os.path.abspath(__file__)), "c04_real_loader.py")
+        b = subprocess.run([sys.executable, loader, cpath, folder, epath], env=env, capture_output=True, text=True, timeout=300)
+        out["digest"] = C.digest_of([a.returncode, b.returncode, b.stdout[-200:]])
+        if b.returncode != 0:
+            kind = "mismatch" if b.returncode == 1 else "raised"
+            last = (b.stdout.strip().splitlines() or b.stderr.strip().splitlines() or ["?"])[-1]
+            out["violations"].append({"property": PID, "oracle": "real-fresh-interpreter", "kind": f"reload-{kind}",
+                                      "detail": {"stdout": b.stdout[-600:], "stderr": b.stderr[-300:]},
+                                      "signature": {"error": last[:80]}})
+    w, cfg = case["workload"], case["config"]
+    for s in ([cfg["storage"]] if isinstance(cfg["storage"], str) else set(cfg["storage"].values())):
+        out["probes"][f"real_storage:{s}"] = 1
+    out["nontrivial"] = [C.digest_of([describe(w), cfg["storage"], "real"])]
+    out["sample"] = {"workload": describe(w), "config": cfg, "real_children": True}
+    return out
+
+
 def run_case(case, exec_seed=None, exec_tape=None):
     C.begin_case()
+    if case["config"].get("real_children"):
+        return run_real(case)
     w, cfg, ops = case["workload"], case["config"], case["ops"]
     out = {"violations": [], "probes": {}, "nontrivial": [], "evaluations": 1, "yields": 0, "sim_time": 0.0}
     tape = Tape(exec_seed) if exec_tape is None else Tape(recorded=exec_tape)
